@@ -1,4 +1,5 @@
 """C40 — Keystore is a confined name-to-key map (spec/Keystore)."""
+import os
 
 META = dict(
     spec="Keystore",
@@ -46,8 +47,11 @@ def run(ctx):
             n += (prev is not None and st["m"] != prev) or (prev is None and any(st["m"].values()))
             prev = st["m"]
         return n >= 2
-    for name, bl, env in (("bfs", behs, {"C40_NORMAL": 2, "C40_TABLES": 2 if ctx.quick else 6}),
-                          ("bfs5", deep, {"C40_NORMAL": 2, "C40_TABLES": 3}), ("sim", sims, {"C40_WIDE": 1})):
+    # the exhaustive histories run on tmpfs when there is one (4x faster than the journalled /tmp; same NAME_MAX,
+    # relatime); the simulated and the recorded histories use the default temp dir
+    fast = {"TMPDIR": "/dev/shm"} if os.path.isdir("/dev/shm") and os.access("/dev/shm", os.W_OK) else {}
+    for name, bl, env in (("bfs", behs, dict(fast, C40_NORMAL=2, C40_TABLES=2 if ctx.quick else 6)),
+                          ("bfs5", deep, dict(fast, C40_NORMAL=2, C40_TABLES=3)), ("sim", sims, {"C40_WIDE": 1})):
         if bl and ctx.replay_behaviours(binp, "TestVerifC40", "keystore", bl, env=env, name=name,
                                  nontrivial=changed_twice, timeout=3000) is None:
             return
